@@ -1,5 +1,5 @@
 (* Props_C10.v — C10: incarnation discipline, self-refutation and reaction to one's own death. *)
-From Foca Require Import Laws MembersM FocaM WireM L_Members L_MembersInv L_Join Inv L_Wire L_Discard L_Mech.
+From Foca Require Import Laws MembersM FocaM WireM L_Members L_MembersInv L_Join Inv L_Wire L_Discard L_Mech L_IncMono.
 
 Section C10.
 Context {Id Addr : Type} {IO : IdOps Id Addr} {CO : CodecOps Id} {HO : HandlerOps Id}.
@@ -68,8 +68,29 @@ Theorem C10_defunct_does_not_refute (rnd : oracle) (s : @rs Id Addr HO) (i : N) 
   out (fst (handle_self_update rnd i Suspect s)) = out s.
 Proof. exact (defunct_does_not_refute rnd s i). Qed.
 
+(* ALONG EVERY CALL (any input other than change_identity / reuse_down_identity, any oracle): either
+   the identity is kept and the own incarnation did not decrease, or the identity moved to a
+   same-address identity that wins against the previous one (auto-rejoin); the incarnation stays
+   a u16.  With C10_starts_at_zero and C10_self_refute / C10_stale_suspicion this is the
+   'never decreases while that identity is in use, grows only in reaction to a suspicion' clause. *)
+Theorem C10_monotone_call (rnd : oracle) (f : @foca Id Addr HO) (i : @input Id) :
+  incarnation f <= u16_max ->
+  match i with IChangeIdentity _ | IReuseDown => True | _ =>
+    let f' := fst (fst (fst (step rnd f i))) in
+    incarnation f' <= u16_max
+    /\ ((identity f' = identity f /\ incarnation f <= incarnation f')
+        \/ (addr_of (identity f') = addr_of (identity f) /\ wins (identity f') (identity f) = true))
+  end.
+Proof. exact (step_inc_mono rnd f i). Qed.
+
+Theorem C10_incarnation_is_u16 (rnd : oracle) (f : @foca Id Addr HO) (i : @input Id) :
+  incarnation f <= u16_max -> incarnation (fst (fst (fst (step rnd f i)))) <= u16_max.
+Proof. exact (step_inc_u16 rnd f i). Qed.
+
 End C10.
 
+Print Assumptions C10_monotone_call.
+Print Assumptions C10_incarnation_is_u16.
 Print Assumptions C10_starts_at_zero.
 Print Assumptions C10_self_refute.
 Print Assumptions C10_stale_suspicion.
